@@ -214,8 +214,11 @@ def produce(level, depth, groups, emit):
     g = coregen.Gen()
     buf = []
     for items, cost in g.programs(level, depth, exact=level, groups=groups):
-        coregen.check_fragment(items)
-        ref = refint.run_program(items, step_limit=REF_STEPS)
+        try:
+            coregen.check_fragment(items)
+            ref = refint.run_program(items, step_limit=REF_STEPS)
+        except (coregen.FragmentError, refint.Unsupported) as e:
+            raise Machinery(f"generated program outside the fragment ({type(e).__name__}: {e}): {gast.program_src(items)!r}")
         st = ref["stats"]
         buf.append((gast.program_src(items), cost, ref["kind"], ref["stdout"], ref["steps"], features(items),
                     tuple(st[k] for k in STAT_KEYS)))
